@@ -175,7 +175,7 @@ func JSONEdits(doc []byte) [][]byte {
 var errReset = errors.New("verif: connection reset by peer")
 
 func (s *Server) valid(u *url.URL) (int, []byte) {
-	p := strings.TrimPrefix(u.Path, "/")
+	p := strings.TrimPrefix(u.EscapedPath(), "/") // as on the wire
 	s.mu.Lock()
 	size, head := s.Size, s.Head
 	s.mu.Unlock()
